@@ -12,10 +12,11 @@ real engine produces is replayed through the same `step`.  Proved: acceptance im
 clauses, and under ANY schedule a successful build returns a value a brand-new engine computes
 (`C06_schedule_independent_value`).  Not proved: that `Clean` is single-valued for every `WF`
 program (it is for the harness's DSL by construction), the equality of executed sets across
-schedules, and the absence of data races / lost wake-ups in the C++ memory model (exercised by the
-free-threaded harness runs; TSan is support, not proof).
+schedules, and anything below lock granularity (data races in the C++ memory model).  Lost wake-ups,
+deadlock and exactly-once hand-off at lock granularity are proved in Props/C06Handshake.lean.
 -/
 import LLBuild.Props.C01
+import LLBuild.Props.C06Handshake
 import LLBuild.Lemmas.Engine.Fingerprint
 
 set_option linter.unusedVariables false
